@@ -1,6 +1,6 @@
 SPECIFICATION Spec
 CONSTANTS
-  MaxClients = 4
+  MaxClients = 3
   MaxPaths = 5
   ThetaVecs <- Theta1
   AllCompletions = FALSE
